@@ -16,7 +16,7 @@ def legacyOK : Seq → Option Nat
   | _ => none
 
 /-- `case 38 / 48 / 58` with the parameter `p :: subs`: do both consumers do the same, and how many parameters do they skip? -/
-def extStep (ci cs : Cfg) (p : Nat) (subs : List Nat) (rest : Seq) : Option Nat :=
+def extStepCore (ci cs : Cfg) (p : Nat) (subs : List Nat) (rest : Seq) : Option Nat :=
   let n := subs.length + 1
   let ai := ci.accepts p n
   let as := cs.accepts p n
@@ -34,6 +34,10 @@ def extStep (ci cs : Cfg) (p : Nat) (subs : List Nat) (rest : Seq) : Option Nat 
     else if !ai && !as then some 0 else none
   else if n = 6 then (if !ai then some 0 else none)
   else some 0
+
+/-- … provided the `[][]int` consumer is written with the standard bounds / jumps / selectors (the ones `NewStyledString` has). -/
+def extStep (ci cs : Cfg) (p : Nat) (subs : List Nat) (rest : Seq) : Option Nat :=
+  if ci.nums p != {} then none else extStepCore ci cs p subs rest
 
 /-- The underline style `case 4` assigns (none: style left alone). -/
 def ulEff (cfg : Cfg) (subs : List Nat) : Option Nat :=
